@@ -134,6 +134,9 @@ class EngineBase:
         self.sites_seen = set()
         self.path_outcomes = []
         self.return_paths = {}
+        self.lib_used = {}        # contract -> library patterns that matched a call in this run
+        self.out_of_sync = {}     # contract -> reasons why the contract no longer talks about the code it is run against
+        self.fn_names = set()
 
     # ------------------------------------------------------------------ choice
     def choice(self, n, label=""):
